@@ -158,6 +158,12 @@ def run(prop: str, tier_: str) -> int:
             gsx.write_bytes(global_sidx((_REPO2 / 'tests' / 'fixtures' / 'bbb' / 'bbb_v7.mp4').read_bytes(), 4))
             da.add_fixture('bbb', directory='gsx', title='one sidx for the whole file', only={'bbb_a2'}, extra=[(gsx, 'gsx_v7')])
             reps = reps + [('gsx', 'gsx_v7', 'm4v', 0)]
+            # an encrypted track stored without tfdt boxes: the tfdt the service inserts moves saiz / saio / senc
+            from harness.synth import strip_tfdt
+            ntf = d / 'ntf_a1_enc.mp4'
+            ntf.write_bytes(strip_tfdt((_REPO2 / 'tests' / 'fixtures' / 'bbb' / 'bbb_a1_enc.mp4').read_bytes()))
+            da.add_fixture('bbb', directory='ntf', title='encrypted, stored without tfdt', only={'bbb_v6'}, extra=[(ntf, 'ntf_a1_enc')])
+            reps = reps + [('ntf', 'ntf_a1_enc', 'm4a', 1)]
             if prop == 'C03':
                 # a text track stored without tfdt boxes, with an explicit tfhd base_data_offset and a trun without
                 # data_offset (tests/fixtures/webvtt.mp4): the handler has to insert the tfdt itself
